@@ -28,3 +28,77 @@ func (a *Agent) VerifShellHandler() *shell.Handler { return a.shellHandler }
 func (a *Agent) VerifStreamFileContent(ctx context.Context, peerID identity.AgentID, streamID uint64, r io.Reader, totalSize int64, sessionKey *crypto.SessionKey) (int64, error) {
 	return a.streamFileContent(ctx, peerID, streamID, r, totalSize, nil, sessionKey)
 }
+
+// VerifSessionKeys returns the key bytes of every end-to-end session key
+// reachable from this agent's state: streams of the stream manager (TCP,
+// port forward), UDP / ICMP ingress associations, shell client adapters,
+// file transfer streams, and the exit-side handlers (exit, forward, shell,
+// UDP, ICMP). A transit-only agent is expected to return none.
+func (a *Agent) VerifSessionKeys() [][crypto.KeySize]byte {
+	var out [][crypto.KeySize]byte
+	add := func(k *crypto.SessionKey) {
+		if k != nil {
+			out = append(out, k.VerifKeyBytes())
+		}
+	}
+	for _, s := range a.streamMgr.GetAllStreams() {
+		add(s.GetSessionKey())
+	}
+	a.udpIngressMu.RLock()
+	for _, l := range a.udpIngressByLocalStream {
+		l.Dest.mu.RLock()
+		add(l.Dest.SessionKey)
+		l.Dest.mu.RUnlock()
+	}
+	a.udpIngressMu.RUnlock()
+	a.icmpIngressMu.RLock()
+	for _, as := range a.icmpIngressByStream {
+		as.mu.RLock()
+		add(as.SessionKey)
+		as.mu.RUnlock()
+	}
+	a.icmpIngressMu.RUnlock()
+	a.icmpWSSessionMu.RLock()
+	for _, ws := range a.icmpWSSessionByStream {
+		ws.mu.RLock()
+		add(ws.SessionKey)
+		ws.mu.RUnlock()
+	}
+	a.icmpWSSessionMu.RUnlock()
+	a.shellClientMu.RLock()
+	for _, ad := range a.shellClientStreams {
+		add(ad.GetSessionKey())
+	}
+	a.shellClientMu.RUnlock()
+	a.fileStreamsMu.RLock()
+	for _, fts := range a.fileStreams {
+		add(fts.sessionKey)
+	}
+	a.fileStreamsMu.RUnlock()
+	if a.exitHandler != nil {
+		out = append(out, a.exitHandler.VerifSessionKeys()...)
+	}
+	if a.forwardHandler != nil {
+		out = append(out, a.forwardHandler.VerifSessionKeys()...)
+	}
+	if a.shellHandler != nil {
+		out = append(out, a.shellHandler.VerifSessionKeys()...)
+	}
+	if a.udpHandler != nil {
+		out = append(out, a.udpHandler.VerifSessionKeys()...)
+	}
+	if a.icmpHandler != nil {
+		out = append(out, a.icmpHandler.VerifSessionKeys()...)
+	}
+	return out
+}
+
+// VerifRelayCounts returns the sizes of the TCP, UDP and ICMP relay tables.
+func (a *Agent) VerifRelayCounts() (tcp, udp, icmp int) {
+	count := func(t *relayTable) int {
+		t.mu.RLock()
+		defer t.mu.RUnlock()
+		return len(t.byUpstream)
+	}
+	return count(a.tcpRelay), count(a.udpRelay), count(a.icmpRelay)
+}
